@@ -202,6 +202,34 @@ theorem pulledFrom_prefix_fits (limit : Nat) (items : List Item) (buf : Bytes)
           simp [List.take, itemsBytes, itemLen, List.length_append] at ih' ⊢
           omega
 
+/-- when the loop overflows on an error-free stream, the pulled items together exceed the limit:
+with `pulledFrom_prefix_fits` this makes the pulled prefix the *shortest* one over the limit -/
+theorem pulledFrom_overflow_exceeds (limit : Nat) (items : List Item) (buf : Bytes) (k : Nat)
+    (h : finish (runFrom limit (.run buf) items) = .overflow k) :
+    buf.length + itemsBytes (items.take (pulledFrom limit (.run buf) items).1) > limit := by
+  induction items generalizing buf with
+  | nil => simp [finish] at h
+  | cons it rest ih =>
+    cases it with
+    | err => simp [step, finish] at h
+    | chunk c =>
+      by_cases hc : buf.length + c.length > limit
+      · simp [pulledFrom, step, hc, itemsBytes, itemLen]
+      · simp only [runFrom_cons, step, hc, if_false] at h
+        have := ih (buf ++ c) h
+        simp only [pulledFrom, step, hc, if_false]
+        simp [List.take, itemsBytes, itemLen, List.length_append] at this ⊢
+        omega
+
+theorem stepPoll_fold (limit : Nat) (ps : List PollEv) (s : St) :
+    ps.foldl (stepPoll limit) s = runFrom limit s (readyItems ps) := by
+  induction ps generalizing s with
+  | nil => rfl
+  | cons p rest ih =>
+    cases p with
+    | ready it => simpa [stepPoll, readyItems] using ih (step limit s it)
+    | pending => simpa [stepPoll, readyItems] using ih s
+
 /-! ### decoder -/
 
 /-- the law the black-box decompressors are assumed to satisfy: fed any segmentation of a wire
@@ -347,6 +375,22 @@ theorem tryConsume_mono (l : Limits) (bytes : Nat) (m : Bool) :
   obtain ⟨t, mem, f⟩ := l
   unfold tryConsume checkedSub
   cases m <;> cases f <;> simp <;> (repeat' split) <;> simp_all <;> omega
+
+/-- over any sequence of calls, failing ones included, no budget ever grows -/
+theorem runOps_mono (ops : List (Nat × Bool)) : ∀ l : Limits,
+    (runOps l ops).total ≤ l.total ∧ (runOps l ops).memory ≤ l.memory ∧
+    (∀ f', (runOps l ops).field = some f' → ∃ f, l.field = some f ∧ f' ≤ f) := by
+  induction ops with
+  | nil => intro l; exact ⟨Nat.le_refl _, Nat.le_refl _, fun f' h => ⟨f', h, Nat.le_refl _⟩⟩
+  | cons op rest ih =>
+    intro l
+    have h1 := tryConsume_mono l op.1 op.2
+    have h2 := ih (tryConsume l op.1 op.2).1
+    refine ⟨Nat.le_trans h2.1 h1.1, Nat.le_trans h2.2.1 h1.2.1, ?_⟩
+    intro f' hf'
+    obtain ⟨f1, hf1, hle1⟩ := h2.2.2 f' hf'
+    obtain ⟨f, hf, hle⟩ := h1.2.2 f1 hf1
+    exact ⟨f, hf, Nat.le_trans hle1 hle⟩
 
 theorem charge_charge (l : Limits) (a b : Nat) (m : Bool) :
     charge (charge l a m) b m = charge l (a + b) m := by
@@ -556,5 +600,100 @@ theorem formLoop_ok_iff (limitOf : String → Option Nat) (fs : List Field)
               have := h3 name L' hL'
               have hn' : ¬ f.name = name := fun e => hn e.symm
               simpa [hn'] using this
+
+end ActixModel.Collect
+
+namespace ActixModel.Collect
+open ActixModel.Util
+
+/-! ### where a form fails -/
+
+theorem formLoop_deny (limitOf : String → Option Nat) (l : Limits) (fl : FieldLimits) (i : Nat)
+    (f : Field) (rest : List Field) (h : f.kind = .deny) :
+    (formLoop limitOf l fl i (f :: rest)).1 = .duplicate i := by
+  simp [formLoop, h]
+
+/-- stepping over an accepted head field: the tail runs in the charged state, and fitting of any
+list that starts with this field reduces to fitting of its tail in that state -/
+theorem formFits_cons_of_read (limitOf : String → Option Nat) (l : Limits) (fl : FieldLimits)
+    (f : Field) (hf : f.kind ≠ .deny) (tl : List Field) (htl : ∀ g ∈ tl, g.kind ≠ .deny)
+    (hr : (readField (f.kind == .memory) { l with field := rem limitOf fl f.name } f.chunks).2 = true) :
+    let r := readField (f.kind == .memory) { l with field := rem limitOf fl f.name } f.chunks
+    (FormFits limitOf fl l.total l.memory (f :: tl) ↔
+      FormFits limitOf (flSet fl f.name r.1.field) r.1.total r.1.memory tl) := by
+  intro r
+  have hall : ∀ g ∈ f :: tl, g.kind ≠ .deny := by
+    intro g hg; rcases List.mem_cons.mp hg with h | h
+    · rw [h]; exact hf
+    · exact htl g h
+  rw [← formLoop_ok_iff limitOf (f :: tl) hall l fl 0, formLoop_cons limitOf l fl 0 f tl hf, if_pos hr,
+    formLoop_ok_iff limitOf tl htl]
+
+/-- the result of the whole field loop, by cases: the index reported is that of the first field
+that is a denied duplicate or whose bytes no longer fit, and everything before it fitted -/
+theorem formLoop_spec (limitOf : String → Option Nat) (fs : List Field) :
+    ∀ (l : Limits) (fl : FieldLimits) (i : Nat),
+    match (formLoop limitOf l fl i fs).1 with
+    | .ok => (∀ f ∈ fs, f.kind ≠ .deny) ∧ FormFits limitOf fl l.total l.memory fs
+    | .overflow j => ∃ pre f suf, fs = pre ++ f :: suf ∧ j = i + pre.length ∧
+        (∀ g ∈ pre, g.kind ≠ .deny) ∧ f.kind ≠ .deny ∧
+        FormFits limitOf fl l.total l.memory pre ∧ ¬ FormFits limitOf fl l.total l.memory (pre ++ [f])
+    | .duplicate j => ∃ pre f suf, fs = pre ++ f :: suf ∧ j = i + pre.length ∧
+        (∀ g ∈ pre, g.kind ≠ .deny) ∧ f.kind = .deny ∧ FormFits limitOf fl l.total l.memory pre := by
+  induction fs with
+  | nil =>
+    intro l fl i
+    simp [formLoop, FormFits, sumAll, sumMem, sumName]
+  | cons f rest ih =>
+    intro l fl i
+    have fitsNil : FormFits limitOf fl l.total l.memory [] := by
+      simp [FormFits, sumAll, sumMem, sumName]
+    by_cases hd : f.kind = .deny
+    · rw [formLoop_deny limitOf l fl i f rest hd]
+      exact ⟨[], f, rest, rfl, by simp, by simp, hd, fitsNil⟩
+    · rw [formLoop_cons limitOf l fl i f rest hd]
+      by_cases hr : (readField (f.kind == .memory) { l with field := rem limitOf fl f.name } f.chunks).2 = true
+      · rw [if_pos hr]
+        have key := fun tl htl => formFits_cons_of_read limitOf l fl f hd tl htl hr
+        have h := ih (readField (f.kind == .memory) { l with field := rem limitOf fl f.name } f.chunks).1
+          (flSet fl f.name (readField (f.kind == .memory) { l with field := rem limitOf fl f.name } f.chunks).1.field) (i + 1)
+        revert h
+        cases (formLoop limitOf (readField (f.kind == .memory) { l with field := rem limitOf fl f.name } f.chunks).1
+          (flSet fl f.name (readField (f.kind == .memory) { l with field := rem limitOf fl f.name } f.chunks).1.field) (i + 1) rest).1 with
+        | ok =>
+          intro ⟨h1, h2⟩
+          refine ⟨?_, (key rest h1).mpr h2⟩
+          intro g hg; rcases List.mem_cons.mp hg with e | e
+          · rw [e]; exact hd
+          · exact h1 g e
+        | overflow j =>
+          intro ⟨pre, g, suf, e1, e2, e3, e4, e5, e6⟩
+          refine ⟨f :: pre, g, suf, by simp [e1], by simp [e2]; omega, ?_, e4, (key pre e3).mpr e5, ?_⟩
+          · intro x hx; rcases List.mem_cons.mp hx with e | e
+            · rw [e]; exact hd
+            · exact e3 x e
+          · intro hfit
+            apply e6
+            have hall : ∀ x ∈ pre ++ [g], x.kind ≠ .deny := by
+              intro x hx; rcases List.mem_append.mp hx with e | e
+              · exact e3 x e
+              · simp at e; rw [e]; exact e4
+            exact (key (pre ++ [g]) hall).mp (by simpa using hfit)
+        | duplicate j =>
+          intro ⟨pre, g, suf, e1, e2, e3, e4, e5⟩
+          refine ⟨f :: pre, g, suf, by simp [e1], by simp [e2]; omega, ?_, e4, (key pre e3).mpr e5⟩
+          intro x hx; rcases List.mem_cons.mp hx with e | e
+          · rw [e]; exact hd
+          · exact e3 x e
+      · rw [if_neg hr]
+        refine ⟨[], f, rest, rfl, by simp, by simp, hd, fitsNil, ?_⟩
+        intro hfit
+        apply hr
+        have hall : ∀ g ∈ [f], g.kind ≠ .deny := by intro g hg; simp at hg; rw [hg]; exact hd
+        have := (formLoop_ok_iff limitOf [f] hall l fl 0).mpr (by simpa using hfit)
+        rw [formLoop_cons limitOf l fl 0 f [] hd] at this
+        by_cases h2 : (readField (f.kind == .memory) { l with field := rem limitOf fl f.name } f.chunks).2 = true
+        · exact h2
+        · rw [if_neg h2] at this; cases this
 
 end ActixModel.Collect
